@@ -93,6 +93,84 @@ func c8counting(tier string) []mc.Unit {
 			}})
 		}
 	}
+	// every length 0..L (L = 12 300; thorough 40 000): one pseudo-random mixed-case sequence per length (a block size,
+	// a chunk or a buffer of any size below L is crossed at every remainder)
+	maxLen := tier2(tier, 12300, 40000)
+	for part := 0; part < 8; part++ {
+		part := part
+		us = append(us, mc.Unit{Name: fmt.Sprintf("counting/every-length/part=%d", part), Serial: true, Weight: maxLen / 80, Run: func(r *mc.Recorder) {
+			base := deepCopyTable(codon.GetCodonTable(11))
+			full := lcgString("ACGTacgtACGTN", maxLen, 77)
+			var cnt int64
+			for n := part; n <= maxLen; n += 8 {
+				s := full[maxLen-n:]
+				t := deepCopyTable(base)
+				var res codon.Table
+				if p := catch(func() { res = t.OptimizeTable(s) }); p != "" {
+					r.Failf("no-panic", fmt.Sprintf("table 11, pseudo-random sequence of %d letters", n), nil, "weights", "panic: "+p)
+					continue
+				}
+				cnt++
+				want := inFrameCounts(s)
+				got := viewOf(res)
+				for _, c := range allCodons {
+					if got.w[c] != want[c] {
+						r.Failf("counts", fmt.Sprintf("table 11, pseudo-random sequence of %d letters", n), []string{"every-length"}, fmt.Sprintf("%s=%d", c, want[c]), fmt.Sprintf("%s=%d", c, got.w[c]))
+						break
+					}
+				}
+				if r.Enough() {
+					break
+				}
+			}
+			r.Eval(cnt)
+			r.AddStates(cnt)
+			r.AddTransitions(cnt)
+			r.AddNontrivial(cnt)
+			r.Bound("counting/every-length", fmt.Sprintf("every sequence length 0..%d", maxLen))
+		}})
+	}
+	// two consecutive re-weightings with sequences that agree in length, head and tail and differ in the middle (and
+	// the like): what one call computed must not be taken for the other's
+	us = append(us, mc.Unit{Name: "counting/near-collisions", Serial: true, Weight: 30, Run: func(r *mc.Recorder) {
+		var cnt int64
+		for _, L := range []int{6, 30, 66, 99, 129, 300, 3000, 70002} {
+			s1 := lcgString("ACGT", L, 5)
+			mid := L / 2
+			mid -= mid % 3
+			alt := map[byte]byte{'A': 'C', 'C': 'G', 'G': 'T', 'T': 'A'}
+			b := []byte(s1)
+			b[mid] = alt[b[mid]]
+			s2 := string(b)
+			variants := [][2]string{{s1, s2}, {s2, s1}, {s1, strings.ToLower(s2)}, {s1, s1[3:] + s1[:3]}, {s1, s1[:L-3]}, {s1, "ATG" + s1[3:]}, {s1, s1[:L-3] + "TAA"}}
+			for vi, v := range variants {
+				for _, ids := range [][2]int{{1, 1}, {2, 3}, {11, 1}} {
+					ta, tb := deepCopyTable(codon.GetCodonTable(ids[0])), deepCopyTable(codon.GetCodonTable(ids[1]))
+					var ra, rb codon.Table
+					if p := catch(func() { ra = ta.OptimizeTable(v[0]); rb = tb.OptimizeTable(v[1]) }); p != "" {
+						r.Failf("no-panic", fmt.Sprintf("near-collision pair %d of length %d", vi, L), nil, "weights", "panic: "+p)
+						continue
+					}
+					cnt += 2
+					for k, res := range []codon.Table{ra, rb} {
+						want := inFrameCounts(v[k])
+						got := viewOf(res)
+						for _, c := range allCodons {
+							if got.w[c] != want[c] {
+								r.Failf("counts", fmt.Sprintf("tables %d then %d re-weighted with two sequences of %d letters that differ only %s: call %d", ids[0], ids[1], L, []string{"in one middle letter", "in one middle letter (other order)", "in case and one letter", "by rotation", "by the last codon", "in the first codon", "in the last codon"}[vi], k+1), []string{"near-collision"}, fmt.Sprintf("%s=%d", c, want[c]), fmt.Sprintf("%s=%d", c, got.w[c]))
+								break
+							}
+						}
+					}
+				}
+			}
+		}
+		r.Eval(cnt)
+		r.AddStates(cnt)
+		r.AddTransitions(cnt)
+		r.AddNontrivial(cnt)
+		r.Bound("counting/near-collisions", "pairs of sequences of 8 lengths agreeing in length, head and tail (7 kinds of small difference) x 3 table pairs, consecutive calls")
+	}})
 	// long coding sequences at lengths around powers of two and decimal round numbers (an enumerated family)
 	for _, n := range []int{4095, 4096, 4097, 16383, 16384, 16385, 16386, 49153, 65537, tier2(tier, 70001, 100000)} {
 		n := n
